@@ -163,6 +163,8 @@ func runC12(p *Prog, r *Report, tier string) {
 	// the template list handed out by the lookup is shared between client goroutines without the lock: replacement must
 	// not write into it (C04's fresh-list rule)
 	checkTemplateReplace(p, r)
+	// "every message accepted from a connection is delivered exactly once, in order": the stream framing rules of C11
+	checkFraming(p, r)
 	// datagram buffers: what is handed to the per-client goroutine must not be overwritten by the next read
 	if hu := p.Fn("(*pkg/collector.CollectingProcess).handleUDPMessage"); hu != nil {
 		for _, cs := range g.callers[hu] {
